@@ -28,6 +28,8 @@ Inductive aval :=
 | AHrefData                   (* xlink:href="data:.."                 write_image_data   *)
 | AIn (k : N) (r : finput)    (* in (k = 1) / in2 (k = 2)             write_filter_input *)
 | AResult (r : N)             (* result=".."                                             *)
+| ASub (mask : N)             (* which of x / y / width / height a filter primitive writes (bits 1, 2, 4, 8):
+                                 write_filter_primitive_attrs writes each one iff it differs from the filter region *)
 | AStyle                      (* style="mix-blend-mode:..;isolation:.." on a group: ONE attribute *)
 | AXmlns | AXlink.            (* xmlns / xmlns:xlink on the root                         *)
 
@@ -127,15 +129,16 @@ Section Write.
   (* one filter primitive *)
   Definition write_prim (pr : prim) : xout :=
     match pr with
-    | PR k res ins img =>
+    | PR k sb res ins img =>
         let href := match img with
                     | Some r => match g_kids r with c :: _ => [AHref p (node_id c)] | [] => [] end
                     | None => []
                     end in
         if k =? 12 then                                           (* Kind::Merge: inputs on feMergeNode children *)
-          XE (Tfe k) [AResult res] (map (fun i => XE TfeMergeNode [AIn 1 i] []) ins)
+          XE (Tfe k) [ASub sb; AResult res] (map (fun i => XE TfeMergeNode [AIn 1 i] []) ins)
         else
-          XE (Tfe k) ((fix go (l : list finput) (j : N) : list aval :=
+          XE (Tfe k) (ASub sb ::
+                      (fix go (l : list finput) (j : N) : list aval :=
                          match l with [] => [] | i :: r => AIn j i :: go r (j + 1) end) ins 1
                       ++ href ++ [AResult res]) []
     end.
@@ -253,6 +256,7 @@ Definition aval_eqb (a b : aval) : bool :=
   | AHrefData, AHrefData | AXmlns, AXmlns | AXlink, AXlink | AStyle, AStyle => true
   | AIn k r, AIn l s => (k =? l) && finput_eqb r s
   | AResult r, AResult s => r =? s
+  | ASub r, ASub s => r =? s
   | _, _ => false
   end.
 Fixpoint xout_eqb (a b : xout) {struct a} : bool :=
